@@ -234,6 +234,9 @@ pub fn check_frames(rep: &mut Report, prop: &str, ctx: &str, wire: &WireRef, exp
         }
     }
     rep.count("call_frames_ok");
+    if rep.evaluations % 7 == 3 {
+        rep.sample(8, || json!({"call": ctx, "captured": vnet::json::show(&bytes)}));
+    }
 }
 
 // ---- C12: replies -------------------------------------------------------------------------------
@@ -417,6 +420,7 @@ pub fn check_error_enum<E: Serialize + std::fmt::Debug>(
         }
     }
     rep.count("error_values_ok");
+    rep.sample(6, || json!({"error_value": ctx, "encoded": want.to_string()}));
 }
 
 // ---- C16: derived descriptions --------------------------------------------------------------------
@@ -454,6 +458,7 @@ pub fn check_type(rep: &mut Report, name: &str, got: &zlink_core::idl::Type<'_>,
         rep.violation(&format!("C16/derived-type-description-differs:{}", class_of(&g, want)), format!("{name}: derived {g:?}; expected from the declaration {want:?}"), json!({"monitor": "c16", "item": name}));
     } else {
         rep.count("type_descriptions_ok");
+        rep.sample(8, || json!({"item": name, "derived_type": format!("{got}")}));
     }
 }
 
@@ -475,6 +480,7 @@ pub fn check_custom(rep: &mut Report, name: &str, got: &zlink_core::idl::CustomT
     }
     roundtrip(rep, name, &i, &g);
     rep.count("custom_type_descriptions_ok");
+    rep.sample(8, || json!({"item": name, "derived_custom_type": i.to_string()}));
 }
 
 pub fn check_errors(rep: &mut Report, name: &str, got: &[&zlink_core::idl::Error<'_>], want: &[GMember]) {
@@ -494,6 +500,7 @@ pub fn check_errors(rep: &mut Report, name: &str, got: &[&zlink_core::idl::Error
     }
     roundtrip(rep, name, &i, &g);
     rep.count("error_descriptions_ok");
+    rep.sample(8, || json!({"item": name, "derived_errors": i.to_string()}));
 }
 
 /// doc-comment text is compared after trimming (`/// x` reaches the derive as " x")
